@@ -18,11 +18,11 @@ import (
 var c20Ops = []string{"sign-A", "sign-B", "sign-fail-before-signer", "sign-fail-in-signer", "sign-fail-after-signer", "verify", "content"}
 
 type c20Obs struct {
-	verifyOK, contentOK   bool
+	verifyOK, contentOK    bool
 	verifyNoSig, contNoSig bool
-	v, c                  *signature.EnvelopeContent
-	verr, cerr            error
-	pan                   any
+	v, c                   *signature.EnvelopeContent
+	verr, cerr             error
+	pan                    any
 }
 
 func c20Observe(e signature.Envelope) (o c20Obs) {
@@ -179,7 +179,9 @@ func c20Body(c *mc.Ctx, st c20Start, depth int) {
 		o1 := c20Observe(env)
 		o2 := c20Observe(env)
 		c.State(model + " | " + o1.key())
-		sig := func(what string) string { return fmt.Sprintf("C20 %s %s (state %s after %s)", mediaShort(st.media), what, model, after) }
+		sig := func(what string) string {
+			return fmt.Sprintf("C20 %s %s (state %s after %s)", mediaShort(st.media), what, model, after)
+		}
 		if o1.pan != nil || o2.pan != nil {
 			c.Fail(sig("panic"), "history %v: %v %v", hist, o1.pan, o2.pan)
 			return false
@@ -300,7 +302,9 @@ func init() {
 		Assumptions: []string{"after a failed signing the model follows whichever of the two allowed observations (previous state / no signature) the object shows"},
 		Init:        func(mc.Tier) (int, error) { envFix.init(); return len(envFix.chains), nil },
 		Scenarios:   c20Scenarios,
-		Alphabet:    func(mc.Tier) map[string]int { return map[string]int{"operations": len(c20Ops), "start_states": 3, "formats": 2, "signer_kinds": 2} },
+		Alphabet: func(mc.Tier) map[string]int {
+			return map[string]int{"operations": len(c20Ops), "start_states": 3, "formats": 2, "signer_kinds": 2}
+		},
 		Guards: func(s *mc.Stats, t mc.Tier) []string {
 			var w []string
 			for _, o := range []string{"final:empty", "final:signed-A", "final:signed-B", "final:parsed-valid", "final:parsed-tampered"} {
